@@ -1,7 +1,7 @@
 /-
   `inv_step`: every operation of the edit alphabet preserves the invariant under `pre`.
 -/
-import PyTough.Proofs.GridMinc
+import PyTough.Proofs.GridReuse
 namespace Proofs.Grid
 open Py Model Model.Grid Model.Grid.World
 
@@ -37,5 +37,10 @@ theorem inv_step_core {w : World} (hI : Grid.Inv w) (op : Op) (hpre : pre w op =
     · rename_i e w' heq; simp only [heq]; exact this
   | addGrid s l => simp [isSum] at hs
   | embed s h b p => simp [isSum] at hs
+  | addBlockFresh nm rock vol centre => exact stepReuse_inv hI _ hpre
+  | readdBlock nm => exact stepReuse_inv hI _ hpre
+  | readdRocktype nm => exact stepReuse_inv hI _ hpre
+  | readdConnection n0 n1 => exact stepReuse_inv hI _ hpre
+  | againBlock nm => exact stepReuse_inv hI _ hpre
 
 end Proofs.Grid
